@@ -12,7 +12,8 @@
    Not modelled (descriptions using them are outside [modelled]): directory / directory-structure nodes and their tree
    signatures, stat keys, custom tasks, discovered dependencies, command-timestamp nodes, node attributes other than
    is-mutated, link-output-path, the creation of parent directories (the world is a flat map from paths to objects),
-   cancellation and cycles (a cyclic description exhausts the fuel of [build_key]).
+   cancellation; a dependency cycle is reported as [BCycle] (the engine's cycle detection and
+   its resolution callbacks are not modelled).
    Definitions only. *)
 From LLB Require Import Base.Bytes Codec.Codec Codec.FileObs BSys.Sig.
 Local Open Scope N_scope.
@@ -376,7 +377,7 @@ Record bstate := mkBS {
   bs_vals : list (key * bvalue);         (* the value of every rule built so far, most recent first *)
   bs_ran : list bytes }.                 (* ghost: names of the commands whose tool body executed, most recent first *)
 
-Inductive bres := BOk (st : bstate) | BFuel | BStuck.     (* BStuck: an assertion / llvm_unreachable / unmodelled rule *)
+Inductive bres := BOk (st : bstate) | BFuel | BCycle | BStuck.   (* BStuck: an assertion / llvm_unreachable / unmodelled rule *)
 
 Fixpoint lookup_val (l : list (key * bvalue)) (k : key) : option bvalue :=
   match l with
@@ -394,18 +395,19 @@ Fixpoint fold_keys (bk : bstate -> key -> bres) (ks : list key) (st : bstate) : 
   | k :: ks' => match bk st k with BOk st1 => fold_keys bk ks' st1 | other => other end
   end.
 
-Fixpoint build_key (fuel : nat) (d : desc) (epoch : N) (st : bstate) (k : key) {struct fuel} : bres :=
+Fixpoint build_key (fuel : nat) (d : desc) (epoch : N) (stack : list key) (st : bstate) (k : key) {struct fuel} : bres :=
   match fuel with
   | O => BFuel
   | S f =>
     match lookup_val (bs_vals st) k with
     | Some _ => BOk st                                   (* complete in this epoch *)
     | None =>
+      if existsb (key_eqb k) stack then BCycle else       (* demanded while it is itself being built *)
       match lookup_rule d k with
       | RMissingCommand => BOk (record st k (v_simple VInvalid))
       | RCommand c =>
         (* ExternalCommand::start requests every input; SymlinkCommand::start must-follows them *)
-        match fold_keys (build_key f d epoch) (map KN (cm_inputs c)) st with
+        match fold_keys (build_key f d epoch (k :: stack)) (map KN (cm_inputs c)) st with
         | BOk st1 =>
           match run_command epoch (bs_world st1) c None (map (fun n => val_of st1 (KN n)) (cm_inputs c)) with
           | Some (w', v, ex) => BOk (mkBS w' ((k, v) :: bs_vals st1) (if ex then cm_name c :: bs_ran st1 else bs_ran st1))
@@ -420,7 +422,7 @@ Fixpoint build_key (fuel : nat) (d : desc) (epoch : N) (st : bstate) (k : key) {
       | RProduced n ps =>
         match ps with
         | [c] =>
-          match build_key f d epoch st (KC (cm_name c)) with
+          match build_key f d epoch (k :: stack) st (KC (cm_name c)) with
           | BOk st1 => match result_for_output c n (val_of st1 (KC (cm_name c))) with
                        | Some v => BOk (record st1 k v)
                        | None => BStuck
@@ -430,7 +432,7 @@ Fixpoint build_key (fuel : nat) (d : desc) (epoch : N) (st : bstate) (k : key) {
         | _ => BOk (record st k (v_simple VFailedInput))   (* the frontend's delegate picks no producer *)
         end
       | RTarget ns =>
-        match fold_keys (build_key f d epoch) (map KN ns) st with
+        match fold_keys (build_key f d epoch (k :: stack)) (map KN ns) st with
         | BOk st1 => BOk (record st1 k (v_simple VTarget))
         | other => other
         end
@@ -450,7 +452,7 @@ Definition default_fuel (d : desc) : nat := 2 * length (d_cmds d) + 4.
 
 (* a clean build of target t: no database, no earlier outputs, only the sources *)
 Definition clean (F : command -> nat -> list (option bytes) -> bytes) (d : desc) (src : list (path * bytes)) (t : bytes) : bres :=
-  build_key F (default_fuel d) d 1 (mkBS (world_of_sources src) [] []) (KT t).
+  build_key F (default_fuel d) d 1 [] (mkBS (world_of_sources src) [] []) (KT t).
 
 (* ---------- the descriptions the theorems are about ---------- *)
 
